@@ -10,12 +10,14 @@ EXTENDS Integers, Sequences, FiniteSets, TLC, Json
 CONSTANTS NTree, DofsPerTree, Mode, NCfg
 
 Trees == 0..(NTree - 1)
-AllEdges == {e \in SUBSET Trees : Cardinality(e) \in {1, 2}}
+\* an edge is the set of trees one constraint row touches: 1 (dof friction, floor contact), 2 (connect, contact between trees) or 3 (a tendon
+\* that runs over three trees: a single generic row)
+AllEdges == {e \in SUBSET Trees : Cardinality(e) \in {1, 2, 3}}
 
 VARIABLES edges, order, k
 vars == <<edges, order, k>>
 
-Adj(E, i, j) == {i, j} \in E
+Adj(E, i, j) == \E e \in E : i \in e /\ j \in e
 
 \* ---------------- _flood_fill, transcribed: state <<labels, stack, nisland, maxstack>>
 RECURSIVE Pushes(_, _, _, _, _)
@@ -87,5 +89,6 @@ MapsOK ==                                                        \* for EVERY th
   /\ \A d \in Dofs : M.dof2idof[d] \in 0..(Cardinality(Dofs) - 1)
   /\ \A d \in Dofs : LET i == FF.labels[TreeOfDof(d)] IN
         IF i >= 0 THEN M.dof2idof[d] >= M.idofadr[i] /\ M.dof2idof[d] < M.idofadr[i] + M.nv[i] ELSE M.dof2idof[d] >= M.nidof
-EmitCfg == PrintT(<<"EMIT", "cfg", ToJson([edges |-> {<<MinOf(e), CHOOSE x \in e : \A y \in e : x >= y>> : e \in edges}, labels |-> FF.labels, nisland |-> FF.nisland, maxstack |-> FF.maxstack])>>)
+EmitCfg == PrintT(<<"EMIT", "cfg", ToJson([edges |-> {<<MinOf(e), CHOOSE x \in e : \A y \in e : x >= y>> : e \in {e2 \in edges : Cardinality(e2) <= 2}},
+                                            hyper |-> {<<MinOf(e), CHOOSE x \in e : x # MinOf(e) /\ \E y \in e : y > x, CHOOSE x \in e : \A y \in e : x >= y>> : e \in {e2 \in edges : Cardinality(e2) = 3}}, labels |-> FF.labels, nisland |-> FF.nisland, maxstack |-> FF.maxstack])>>)
 =============================================================================
